@@ -85,13 +85,16 @@ def judgeTo (f : Fmt) (v : Nat) (impl : String) : String :=
 
 /-- `TryFrom<f64>` as GENERATED from `src/from.rs` (`Gen/WordsFloat`, value mode over the binary64 model), read back into the
     model's result type; `Props/C18.gen_try_from_f64_eq` proves it equal to `tryFromF64`. -/
-def genTry (bits x : Nat) : Res :=
-  match Ruint.Gen.val_try_from_f64 3 bits 0 x with
+def genRes : Option (Except (Nat × Nat × Nat) Nat) → Res
   | none => .panic
   | some (.ok v) => .ok v
   | some (.error (0, _, w)) => .tooLarge w
   | some (.error (1, _, w)) => .negative w
   | some (.error _) => .notANumber
+
+def genTry (bits x : Nat) : Res := genRes (Ruint.Gen.val_try_from_f64 3 bits 0 x)
+/-- `TryFrom<f32>` as generated: the widening cast, then `TryFrom<f64>`. -/
+def genTry32 (bits x : Nat) : Res := genRes (Ruint.Gen.val_try_from_f32 3 bits 0 x)
 
 /-- `f64::from(&Uint)` / `f32::from(&Uint)` as GENERATED from `src/from.rs` (`Gen/WordsToFloat`, over the generated
     `most_significant_bits`); `Props/C18.gen_to_float_eq` proves them equal to `toFloatV`. -/
@@ -105,13 +108,13 @@ def handle (args : List String) (impl : String) : String × String :=
     let x := parseHex xs
     match op with
     | "tryf64" => (resStr (genTry bits x), judgeTry bits (decode b64 x) impl)
-    | "tryf32" => (resStr (genTry bits (f32ToF64 x)), judgeTry bits (decode b32 x) impl)
+    | "tryf32" => (resStr (genTry32 bits x), judgeTry bits (decode b32 x) impl)
     | "satf64" => (optStr (saturating bits (genTry bits x)), specSat bits (decode b64 x))
-    | "satf32" => (optStr (saturating bits (genTry bits (f32ToF64 x))), specSat bits (decode b32 x))
+    | "satf32" => (optStr (saturating bits (genTry32 bits x)), specSat bits (decode b32 x))
     | "wrapf64" => (optStr (wrapping (genTry bits x)), specWrap bits (decode b64 x))
-    | "wrapf32" => (optStr (wrapping (genTry bits (f32ToF64 x))), specWrap bits (decode b32 x))
+    | "wrapf32" => (optStr (wrapping (genTry32 bits x)), specWrap bits (decode b32 x))
     | "fromf64" => (optStr (fromOrPanic (genTry bits x)), specFrom bits (decode b64 x))
-    | "fromf32" => (optStr (fromOrPanic (genTry bits (f32ToF64 x))), specFrom bits (decode b32 x))
+    | "fromf32" => (optStr (fromOrPanic (genTry32 bits x)), specFrom bits (decode b32 x))
     | "tof64" | "tof64v" | "tof32" | "tof32v" =>
       let f := if op = "tof64" || op = "tof64v" then b64 else b32
       let l := toLimbs (nlimbs bits) x
